@@ -371,7 +371,11 @@ func (e *CoreExtension) filterSplit(value interface{}, args ...interface{}) (int
 	if len(delimiter) > 1 {
 		// Convert delimiter string to a regex character class
 		pattern := "[" + regexp.QuoteMeta(delimiter) + "]"
-		re := regexp.MustCompile(pattern)
+		re, err := regexp.Compile(pattern)
+		if err != nil {
+			// e.g. a delimiter that is not valid UTF-8
+			return nil, fmt.Errorf("split: invalid delimiter %q: %w", delimiter, err)
+		}
 
 		if limit > 0 {
 			// Manual split with limit
